@@ -234,6 +234,8 @@ def byte_offset(n, fam, seen=None):
         return "literal"
     if F.is_call(n, "core::str::<impl str>::len"):
         return "str len"
+    if F.is_call(n, "core::char::methods::<impl char>::len_utf8", "std::char::methods::<impl char>::len_utf8"):
+        return "width of a character in bytes"
     if n.get("k") == "Binary" and n["op"] == "Add":
         a, b = byte_offset(n["l"], fam, seen), byte_offset(n["r"], fam, seen)
         return "sum" if (a and b) else None
@@ -463,15 +465,49 @@ def check_tokenizer(fx, rep, rule):
                 o_.append(("other", e))
         return tuple(o_)
 
+    def ascii_token(st):
+        """on this path the current token is known to be one byte wide: it equals an ASCII literal or is a key of the primitive
+        table (C16.1: Z B C S I J F D V)"""
+        a_ = fc.assignment(st.conds, rw_tok)
+        for k_, v_ in a_.items():
+            if v_ is True and k_[0] == "eq" and k_[1] == tok and k_[2][0] == "lit" and k_[2][1] == "char" and ord(k_[2][2]) < 128:
+                return True
+            if v_ is True and k_ == ("is", call(PT, tok), "Some"):
+                return True
+        return False
+
+    def fold_len_utf8(t, st):
+        def f(x):
+            if x[0] == "call" and x[1].endswith("len_utf8") and len(x[2]) == 1 and x[2][0] == tok and ascii_token(st):
+                return lit_int(1)
+            return None
+        r = fc.rewrite(t, f)
+
+        def renorm(x):
+            # `idx + 1` written as a sum with the folded literal
+            if x[0] == "lin":
+                return S.lin_norm([(a_, c_) for a_, c_ in x[1]], x[2])
+            if x[0] == "bin" and x[1] == "Add":
+                return S.lin_norm([(x[2], 1), (x[3], 1)])
+            return None
+        return fc.rewrite(r, renorm)
+
     def outcome(st, o_):
         k, v = o_
+        ef = tuple(fold_len_utf8(fc.rewrite(e_, rw_tok), st) for e_ in effs(st))
         if k == S.BRK:
-            return ("end", effs(st))
+            return ("end", ef)
         if k == S.RET:
-            return ("ret", fc.rewrite(v, rw_tok), effs(st))
-        return ("cont", effs(st))
+            return ("ret", fc.rewrite(v, rw_tok), ef)
+        return ("cont", ef)
     base = len(outer["entry"].conds)
-    bad, n = fc.compare_paths(outer["paths"], ref, outcome, rw=rw_tok, base=base, axioms=tok_axioms)
+    # the width of a token that is known to be ASCII on its path is 1, in conditions as well as in effects
+    folded_paths = []
+    for st_, o_ in outer["paths"]:
+        st2 = st_.copy()
+        st2.conds = tuple((fold_len_utf8(fc.rewrite(a_, rw_tok), st_), p_) for a_, p_ in st_.conds)
+        folded_paths.append((st2, (o_[0], fold_len_utf8(fc.rewrite(o_[1], rw_tok), st_) if o_[1] is not None else None)))
+    bad, n = fc.compare_paths(folded_paths, ref, outcome, rw=rw_tok, base=base, axioms=tok_axioms)
     if not bad:
         rep.ok(rule, "%s/tokenizer/token-loop" % rule, loc=F.loc(outer["node"]),
                found="%d canonical paths: token = descriptor[token_start ..= terminator]; token_start := terminator + 1; '[' keeps token_start; unknown characters skipped" % len(outer["paths"]))
